@@ -403,6 +403,14 @@ static void vthread_main(void) {
   setcontext(&vts[nx].ctx);
 }
 
+// watchdog: a loop inside the allocator that performs no atomic operation (e.g. a cyclic free list) never reaches a scheduling
+// point, so the step budget cannot see it; every 10 s of wall time the step counter must have moved
+static long wd_last = -1;
+static void on_alarm(int sig) {
+  (void)sig;
+  if (steps == wd_last) { printf("V livelock t%d made no atomic step for 10 seconds at step %ld (a loop inside the allocator without a scheduling point)\nEND steps=%ld viol=%ld\n", cur, steps, steps, nviol + 1); fflush(stdout); _exit(5); }
+  wd_last = steps; alarm(10);
+}
 static void on_segv(int sig) { printf("V crash signal %d in t%d at step %ld\nEND steps=%ld viol=%ld\n", sig, cur, steps, steps, nviol + 1); fflush(stdout); _exit(4); }
 
 // ---- C12: mi_abandoned_visit_blocks at quiescence (mode exit) --------------------------------------
@@ -462,7 +470,7 @@ int main(int argc, char** argv) {
   prng_seed(&G, seed * 2 + 1); prng_seed(&GP, seed * 2 + 2);
   { static const int sp[] = { 20, 55, 55, 85 }; stay_pct = sp[seed % 4]; }
   setvbuf(stdout, NULL, _IOFBF, 1 << 16);
-  signal(SIGSEGV, on_segv); signal(SIGBUS, on_segv); signal(SIGABRT, on_segv);
+  signal(SIGSEGV, on_segv); signal(SIGBUS, on_segv); signal(SIGABRT, on_segv); signal(SIGALRM, on_alarm); alarm(10);
   if (getenv("VERIF_RECLAIM_ON_FREE")) mi_option_set(mi_option_abandoned_reclaim_on_free, atoi(getenv("VERIF_RECLAIM_ON_FREE")));
   if (getenv("VERIF_NO_ARENA")) mi_option_set(mi_option_disallow_arena_alloc, 1);
   if (getenv("VERIF_TARGET_SEGMENTS")) many_segments = 1;
